@@ -825,6 +825,15 @@ public:
       }
     }
 
+    // A timed-out drain() re-opens the service (Draining → Running,
+    // _accepting = true) so that drain can be retried. stop() does not retry:
+    // close the gate again before the run loop exits, otherwise a timer
+    // scheduled from here on is accepted but never fires.
+    {
+      std::lock_guard<std::mutex> lock(_mutex);
+      _accepting.store(false, std::memory_order_release);
+    }
+
     // Now transition to Stopped
     bool expected = true;
     if (_running.compare_exchange_strong(expected, false, std::memory_order_acq_rel))
@@ -838,7 +847,14 @@ public:
       }
 
       cleanup();
-      _lifecycleState.store(LifecycleState::Stopped, std::memory_order_release);
+      // Both under _mutex, like drain()'s timeout recovery: a drain() in another
+      // thread that timed out while we were joining may have re-opened the
+      // service; one that times out later sees Stopped and leaves it closed.
+      {
+        std::lock_guard<std::mutex> lock(_mutex);
+        _accepting.store(false, std::memory_order_release);
+        _lifecycleState.store(LifecycleState::Stopped, std::memory_order_release);
+      }
       loggerSnapshot()->info("Timer service stopped");
 
       return LifecycleResult(true, LifecycleState::Stopped, "Timer service stopped");
